@@ -6,9 +6,33 @@ HOOK_COMMITS = subprocess.run(["git","-C","/repo","log","--format=%H %s","--grep
 
 CHECKS = {
  # id: (engine, category, design_ref, technique, text, note)
+ "C01": ("cmdsim","exploration","§5 C01","deterministic simulation: seeded programs x shell schedules x faults on Core hosts against a reference model + runtime-queue quiescence probe",
+   "Seeded search over generated apps (command and legacy capability programs, event continuations) and shell schedules on Core; per call the returned effects and applied events must equal the reference (nothing missing, duplicated or deferred) and the runtime queues must be empty afterwards. Sampling over an unbounded product space, not proof.",
+   "Trusted: reference model, verif_stats accessor, confluence discipline (ambiguous runs discarded)."),
+ "C02": ("cmdsim","exploration","§5 C02","deterministic simulation with duplication/late/never-resolve faults; unique response values make delivery attributable",
+   "Seeded search with many simultaneously outstanding look-alike requests on typed, bincode and JSON paths; every resolve outcome (accepted/rejected) and every delivered value is compared with the reference arity table and routing. Sampling, not proof.",
+   "Trusted: reference model; debug_assert escalation in Core::resolve is accepted as rejection; duplicates over the bridge are injected rarely (known finding)."),
+ "C03": ("cmdsim","exploration","§5 C03","deterministic simulation: event bursts and continuations on Core/bridge hosts; exactly-once, per-emitter order, re-entrancy flag, view monotonicity",
+   "Seeded search over programs whose tasks emit bursts of events interleaved with requests, with continuations; the app log read through view must contain every emitted event once, each emitter in order, and update must never be re-entered. Single-threaded half only; concurrent callers are C08.",
+   "Trusted: reference model for the multiset of events; per-emitter sequence numbers are assigned by the generated tasks themselves."),
  "C04": ("cmdsim","exploration","§5 C04","deterministic simulation: seeded programs x shell schedules x faults against a reference model, plus real-vs-real algebraic laws",
    "Seeded search over generated command expressions and every kind of shell schedule (out-of-order, dropped, duplicate, late resolutions, aborts, dropped commands) on the directly inspected Command; each step is compared with a reference interpreter of the documented semantics, and independently the algebraic laws are checked real-vs-real under the same script. Sampling, not proof: right level because the space (programs x schedules) is unbounded and the defects of interest need specific interleavings.",
    "Trusted: the reference model (sim/src/cmd/model.rs), the futures/crossbeam crates, the confluence discipline (ambiguous runs are discarded, not judged)."),
+ "C05": ("cmdsim","exploration","§5 C05","deterministic simulation, differential: one program + one script under six real hosts and under k wrapping layers, compared step by step real-vs-real",
+   "The same generated program and explicit action script are executed under the direct command, k semantics-preserving wrapping layers (k up to 64), Core with both effect styles, the legacy capability API, the bincode bridge and the JSON bridge; per-step effects, applied events and resolve outcomes must be equal (lost wake-ups show as outputs arriving in a later step). Model-free for the comparison itself.",
+   "Trusted: the harness's own decoder on the bridge paths; hosts that cannot express an action (drops over a bridge, legacy programs without capabilities) sit that run out."),
+ "C06": ("cmdsim","fault_enumeration","§5 C06","deterministic simulation with exhaustive enumeration of every single cancellation placement per sampled (program, schedule)",
+   "For each sampled program and fault-free base script every step boundary x every cancellable target (abort handle, outstanding request, command value, everything) is executed as its own run, then the script continues with late resolves and an adaptive drain; the reference model is the oracle after the cancellation point. Enumeration is complete per sampled base, sampling across bases.",
+   "Trusted: reference model incl. its tolerance for when lazily reaped aborted work disappears; AbortTask placements come from generated programs, not from enumeration."),
+ "C07": ("cmdsim","exploration","§5 C07","deterministic simulation on the direct Command with buggify-injected spurious wake-ups; is_done compared with the reference at every quiescent point",
+   "Seeded search over programs mixing requests, streams, joins, selects, join handles and self-waking futures with resolve-some/drop-others scripts; is_done and all outputs are compared with a reference that discards a task exactly when it finished, was cancelled or can never be woken again. Sampling, not proof.",
+   "Trusted: reference model; Future-contract-compliant task code; either answer accepted while requests of losing select branches are still held by the shell."),
+ "C09": ("cmdsim","exploration","§5 C09","deterministic simulation, differential: typed Core twin vs bincode bridge vs JSON bridge on the same out-of-order history",
+   "The typed core (itself judged against the reference model) and the bridges run the same history; decoded effect batches, views, resolve outcomes and routing (unique values) must agree per call, ids of outstanding requests must be pairwise distinct. Sampling, not proof.",
+   "Trusted: serde/bincode/serde_json as the shell-side decoder."),
+ "C13": ("cmdsim","exploration","§5 C13","deterministic simulation over long histories with drop-counted tokens and read-only occupancy accessors",
+   "Long generated histories of start/resolve/drop/abort cycles; at every quiescent point executor tasks, command tasks, registry entries by kind and live tokens must be accounted for by the reference's outstanding work, and be zero after the drain phase and after the host is dropped. Sampling, not proof.",
+   "Trusted: verif accessors, the reference model's notion of outstanding work."),
 }
 
 NOT_YET = {}
